@@ -784,6 +784,7 @@ func (e *Exec) applyBlock(n *Node, rec *BlockRec, o applyOpts) (out applyOutcome
 	}
 	n.inBlock = true
 	_ = isUpgrade
+	e.legacyState(n, h)
 	if crashHere(0) {
 		out.Crashed = true
 		return
@@ -1111,6 +1112,9 @@ func (e *Exec) exportFrom(n *Node, tag string) (appState []byte, vals []abci.Val
 		err = er
 		if er == nil {
 			appState = exp.AppState
+			if n.ID == 0 {
+				e.exportedCP = exp.ConsensusParams // the export carries the consensus parameters in force (governance may have changed them)
+			}
 			for _, v := range exp.Validators {
 				pk, _ := cryptoToProto(v.PubKey)
 				vals = append(vals, abci.ValidatorUpdate{PubKey: pk, Power: v.Power})
@@ -1307,7 +1311,11 @@ func (e *Exec) importInto(n *Node, appState []byte, vals []abci.ValidatorUpdate,
 	}
 	n.curHdr = &Block{Height: h + 1, Time: e.Now}
 	_, halt := n.guard("InitChain", func() {
-		n.App.InitChain(abci.RequestInitChain{ChainId: ChainID, ConsensusParams: consensusParams(), AppStateBytes: appState, Time: e.Now, InitialHeight: h + 1, Validators: vals})
+		cp := consensusParams()
+		if e.exportedCP != nil {
+			cp = e.exportedCP
+		}
+		n.App.InitChain(abci.RequestInitChain{ChainId: ChainID, ConsensusParams: cp, AppStateBytes: appState, Time: e.Now, InitialHeight: h + 1, Validators: vals})
 	})
 	if halt != nil {
 		e.viol("C08", "import.init_panic", "", "initialising a fresh chain from the export of height %d panicked: %s [%s]", h, halt.Panic, halt.Stack)
